@@ -105,11 +105,13 @@ RunTx(st, tx, prices, R, ts) ==
            res |-> [ok |-> r.ok, outputs |-> r.outs, units |-> units, fee |-> fee]]
 
 (* ---------------------------------------------------------------- C11: header verdicts *)
-HeaderVerdicts(st, hdr, ntxs, R) ==
+(* pd = block timestamp minus the parent's timestamp.  The property speaks about the parent BLOCK's timestamp
+   (hdr.pdelta); the code reads the parent timestamp from parent STATE (hdr.ts - st.timestamp).  The two differ
+   only for children of the genesis block, whose header carries 2023-01-01 while its state records 0. *)
+HeaderVerdicts(st, hdr, ntxs, R, pd) ==
      (IF hdr.height # st.height + 1 THEN {"height"} ELSE {})
-  \cup (IF hdr.ts < st.timestamp + R.mingap THEN {"block-too-early"} ELSE {})
-  \cup (IF ntxs = 0 /\ hdr.ts < st.timestamp + R.minemptygap /\ hdr.ts >= st.timestamp + R.mingap
-          THEN {"block-too-early-empty"} ELSE {})
+  \cup (IF pd < R.mingap THEN {"block-too-early"} ELSE {})
+  \cup (IF ntxs = 0 /\ pd < R.minemptygap THEN {"block-too-early-empty"} ELSE {})
   \cup (IF hdr.toolate THEN {"block-too-late"} ELSE {})
   \cup (IF ~hdr.rootok THEN {"root"} ELSE {})
 
@@ -129,8 +131,8 @@ UnitsOverflow(txs, i, R, max, consumed) ==
        IF ~Fits(consumed, u, max) THEN TRUE ELSE UnitsOverflow(txs, i + 1, R, max, Add5(consumed, u))
 
 (* Expected outcome of verifying block [hdr, txs] on state st with the block's unit prices *)
-RunBlock(st, hdr, txs, prices, R) ==
-  LET hv   == HeaderVerdicts(st, hdr, Len(txs), R)
+RunBlockWith(st, hdr, txs, prices, R, pd) ==
+  LET hv   == HeaderVerdicts(st, hdr, Len(txs), R, pd)
       over == UnitsOverflow(txs, 1, R, R.maxunits, Zero5)
       f    == Fold(st, txs, 1, prices, R, hdr.ts, <<>>, Zero5)
       sig  == \E i \in DOMAIN txs : txs[i].badsig
@@ -143,4 +145,7 @@ RunBlock(st, hdr, txs, prices, R) ==
       st      |-> [f.st EXCEPT !.height = hdr.height, !.timestamp = hdr.ts],
       results |-> f.results,
       consumed |-> f.consumed]
+
+RunBlock(st, hdr, txs, prices, R)       == RunBlockWith(st, hdr, txs, prices, R, hdr.pdelta)          \* the property
+RunBlockAsCoded(st, hdr, txs, prices, R) == RunBlockWith(st, hdr, txs, prices, R, hdr.ts - st.timestamp) \* parent ts from state
 =============================================================================
